@@ -37,12 +37,28 @@ func parseWith(p Parser, in, base string, hasBase bool) (*Url, error) {
 	return p.Parse(in)
 }
 
+// diagOptions: the non-diagnostic options a parser can be configured with; the relations between the
+// diagnostics configurations must hold on top of each of them.
+var diagOptions = []ParserOption{nil, WithLaxHostParsing(), WithCollapseConsecutiveSlashes(), WithAcceptInvalidCodepoints(),
+	WithPercentEncodeSinglePercentSign(), WithSkipWindowsDriveLetterNormalization(), WithSkipTrailingSlashNormalization(),
+	WithAllowSettingPathForNonBaseUrl()}
+
+func diagParser(opt int, diag ...ParserOption) Parser {
+	if opt > 0 {
+		diag = append(diag, diagOptions[opt])
+	}
+	return NewParser(diag...)
+}
+
 // verifCheckDiagnostics: the relations between the four diagnostics configurations on one input.
-func verifCheckDiagnostics(in, base string, hasBase bool) {
-	pd := NewParser()
-	pr := NewParser(WithReportValidationErrors())
-	pf := NewParser(WithFailOnValidationError())
-	pb := NewParser(WithReportValidationErrors(), WithFailOnValidationError())
+func verifCheckDiagnostics(in, base string, hasBase bool) { verifCheckDiagnosticsOn(0, in, base, hasBase) }
+
+// verifCheckDiagnosticsOn: the same on top of one non-diagnostic option.
+func verifCheckDiagnosticsOn(opt int, in, base string, hasBase bool) {
+	pd := diagParser(opt)
+	pr := diagParser(opt, WithReportValidationErrors())
+	pf := diagParser(opt, WithFailOnValidationError())
+	pb := diagParser(opt, WithReportValidationErrors(), WithFailOnValidationError())
 	ud, ed := parseWith(pd, in, base, hasBase)
 	ur, er := parseWith(pr, in, base, hasBase)
 	uf, ef := parseWith(pf, in, base, hasBase)
@@ -120,7 +136,26 @@ func VerifC15Rel() {
 	verifCheckDiagnostics(refCtx[ri].pre+vnd.Str(vnd.Len(vnd.Param("C15.KRel", 1, 2)))+refCtx[ri].suf, bases[bi], true)
 }
 
+// VerifC15HostDigits: hosts next to the numeric boundaries of the IPv4 parser (256, 2^16, 2^24, 2^32, 2^63,
+// 2^64 in decimal, hex and octal, by part position): where range errors are raised, probed and classified.
+func VerifC15HostDigits() {
+	dc := digitCtxs[vnd.Pick(len(digitCtxs))]
+	n := vnd.Len(vnd.Param("C15.KDigits", 2, 3))
+	suf := digitSuffixes[vnd.Pick(len(digitSuffixes))]
+	verifCheckDiagnostics("http://"+dc.pre+vnd.StrOver(n, dc.alphabet)+suf+"/", "", false)
+}
+
+// VerifC15Configured: the same relations on top of each non-diagnostic parser option.
+func VerifC15Configured() {
+	opt := 1 + vnd.Pick(len(diagOptions)-1)
+	ci := vnd.Pick(len(ctxAbs))
+	vnd.Cover("configured-parser", true)
+	verifCheckDiagnosticsOn(opt, ctxAbs[ci].pre+vnd.Str(vnd.Len(vnd.Param("C15.KConf", 1, 2)))+ctxAbs[ci].suf, "", false)
+}
+
 func init() {
+	verifHarnesses["VerifC15HostDigits"] = VerifC15HostDigits
+	verifHarnesses["VerifC15Configured"] = VerifC15Configured
 	verifHarnesses["VerifC15Abs"] = VerifC15Abs
 	verifHarnesses["VerifC15Hosts"] = VerifC15Hosts
 	verifHarnesses["VerifC15Rel"] = VerifC15Rel
